@@ -28,6 +28,12 @@ for d in diffs:
         if r.returncode == 2:
             alarms[p] = ["EXTRACTION-FAILED"]
             break
+        if r.returncode != 0 and not os.path.exists(f"{S}/ev/{p}.json"):
+            # the check itself failed (e.g. its fact cache was evicted by a concurrent run): once more
+            r = subprocess.run([os.path.join(V, "bin", "check"), "--property", p], env=env, stdout=subprocess.PIPE, stderr=subprocess.STDOUT, text=True)
+            if r.returncode != 0 and not os.path.exists(f"{S}/ev/{p}.json"):
+                alarms[p] = ["CHECK-ERROR " + r.stdout[-300:]]
+                continue
         if r.returncode != 0:
             ev = json.load(open(f"{S}/ev/{p}.json"))
             alarms[p] = [s["key"] + " :: " + s["what"][:160] for s in ev["coverage"]["samples"] if s["verdict"] == "VIOLATION"]
